@@ -106,6 +106,11 @@ func genSharedCase(rt *rapid.T) SharedCase {
 	}
 	c.Reuse = rapid.SampledFrom([]string{"session", "session", "context"}).Draw(rt, "reuse")
 	c.Source = rapid.SampledFrom([]string{"model", "model", "table"}).Draw(rt, "source")
+	for _, cd := range c.Conds {
+		if strings.HasPrefix(cd.Kind, "pk") {
+			c.Source = "model" // a primary-key lookup on a bare table cannot be resolved for Pluck (documented)
+		}
+	}
 	c.Shape = rapid.SampledFrom([]string{"pair", "pair", "nested"}).Draw(rt, "shape")
 	orders := derivedOrders
 	if c.Source == "table" {
